@@ -33,12 +33,14 @@ RealOf(p) ==
     prev |-> p.prev, prevTotal |-> p.prevTotal,
     uq |-> {[t |-> p.uq[i].t, ids |-> p.uq[i].ids] : i \in 1..Len(p.uq)},
     sinfo |-> p.sinfo, bits |-> [v \in Users |-> SeqToSet(p.bits[v])],
-    awardQ |-> p.awardQ, burnQ |-> p.burnQ, proposer |-> p.proposer, pkrel |-> SeqToSet(p.pkrel) ]
+    awardQ |-> p.awardQ, burnQ |-> p.burnQ, proposer |-> p.proposer, pkrel |-> SeqToSet(p.pkrel),
+    dAuth |-> p.dAuth, dRest |-> p.dRest ]
 
 Adopt(pred, r) ==
   [pred EXCEPT !.bal = r.bal, !.supply = r.supply, !.val = r.val, !.pidx = r.pidx, !.prev = r.prev,
                !.prevTotal = r.prevTotal, !.uq = r.uq, !.sinfo = r.sinfo, !.bits = r.bits,
-               !.awardQ = r.awardQ, !.burnQ = r.burnQ, !.proposer = r.proposer, !.pkrel = r.pkrel]
+               !.awardQ = r.awardQ, !.burnQ = r.burnQ, !.proposer = r.proposer, !.pkrel = r.pkrel,
+               !.dAuth = r.dAuth, !.dRest = r.dRest]
 
 Obs(s) == [f \in ObsFields |-> s[f]]
 
@@ -48,11 +50,17 @@ Obs(s) == [f \in ObsFields |-> s[f]]
 \* C11: a rejected transaction leaves the state exactly as it was, except for the fee of one
 \* that passed the ante handler
 RejectedNoTrace(pre, post, a, res) ==
-  (a.a = "Tx" /\ res.class = "rej_pre") => Obs(post) = Obs(pre)
+  (a.a = "Tx" /\ res.class = "rej_pre") =>
+     Obs(post) = Obs(pre) /\ post.dAuth = pre.dAuth /\ post.dRest = pre.dRest
 RejectedOnlyFee(pre, post, a, res) ==
   (a.a = "Tx" /\ res.class = "rej_post") =>
      /\ \A f \in ObsFields \ {"bal"} : post[f] = pre[f]
      /\ post.bal = [pre.bal EXCEPT ![a.from] = @ - a.fee, ![FEE] = @ + a.fee]
+     /\ post.dRest = pre.dRest
+\* C11: CheckTx, Simulate and Query never change state (byte-for-byte digests of every store)
+ReadOnlyNoTrace(pre, post, a, res) ==
+  a.a \in {"CheckTx", "Simulate", "Query"} =>
+     Obs(post) = Obs(pre) /\ post.dAuth = pre.dAuth /\ post.dRest = pre.dRest
 
 \* C06: status changes only along the legal edges
 LegalTransitions(pre, post, a, res) ==
@@ -91,7 +99,7 @@ TombstoneForever(pre, post, a, res) ==
 \* stays in the pos module account), and queued awards are minted exactly once
 FeesToProposer(pre, post, a, res) ==
   (a.a = "BeginBlock" /\ pre.height >= 1) =>
-     /\ post.bal[FEE] = 0
+     /\ post.bal[FEE] = pre.awardQ[FEE]
      /\ LET f == pre.bal[FEE]
             p == pre.proposer
             known == p \in Users /\ pre.val[p].ex
@@ -113,6 +121,7 @@ SupplyMoves(pre, post, a, res) ==
 ActionProps(pre, post, a, res) ==
   << << "C11.RejectedNoTrace", RejectedNoTrace(pre, post, a, res) >>,
      << "C11.RejectedOnlyFee", RejectedOnlyFee(pre, post, a, res) >>,
+     << "C11.ReadOnlyNoTrace", ReadOnlyNoTrace(pre, post, a, res) >>,
      << "C06.LegalTransitions", LegalTransitions(pre, post, a, res) >>,
      << "C06.PayoutNotLate", PayoutNotLate(pre, post, a, res) >>,
      << "C09.UnjailGuard", UnjailGuard(pre, post, a, res) >>,
@@ -155,7 +164,7 @@ TraceNext ==
         THEN \* a dead node: the partially written state is not compared; only whether both died
              /\ st' = [pred EXCEPT !.halt = IF realHalt THEN "halted" ELSE ""]
              /\ (IF realHalt # (pred.halt # "")
-                 THEN PrintT(<< "DIV", l, e.b, {"halt"}, {}, pred.halt >>) ELSE TRUE)
+                 THEN PrintT("DIV " \o ToJson([l |-> l, b |-> e.b, div |-> {"halt"}, bad |-> {}, note |-> pred.halt])) ELSE TRUE)
         ELSE
           LET r == RealOf(e.post)
               post == Adopt(pred, r)
@@ -177,7 +186,7 @@ TraceNext ==
               div == div0 \cup div1 \cup div2 \cup div3 \cup div4
               bad == Failed(StateProps(post2)) \cup Failed(ActionProps(pre, post2, a, e.res))
           IN /\ st' = post2
-             /\ (IF div # {} \/ bad # {} THEN PrintT(<< "DIV", l, e.b, div, bad, "" >>) ELSE TRUE)
+             /\ (IF div # {} \/ bad # {} THEN PrintT("DIV " \o ToJson([l |-> l, b |-> e.b, div |-> div, bad |-> bad, note |-> ""])) ELSE TRUE)
 
 TraceSpec == TraceInit /\ [][TraceNext]_<<st, l>>
 
